@@ -46,8 +46,16 @@ def _work(arg):
         common.bind()
         mod = importlib.import_module(f"mc.props.{modname}")
         t0 = time.perf_counter()
+        from . import drivers as _drv
+        _drv.RESCUE_COUNT = 0
         res = mod.run(case)
         res["_t"] = time.perf_counter() - t0
+        if _drv.RESCUE_COUNT:
+            tg = res.get("tags")
+            if isinstance(tg, dict):
+                tg["highs_presolve_rescue"] = tg.get("highs_presolve_rescue", 0) + _drv.RESCUE_COUNT
+            elif isinstance(tg, list):
+                tg.extend(["highs_presolve_rescue"] * _drv.RESCUE_COUNT)
         return case, res, None
     except SystemExit as e:
         return case, {"v": [{"kind": "system_exit", "msg": f"SystemExit({e.code}) escaped from the library"}],
